@@ -1,4 +1,4 @@
-//! gen_drivers <outdir>: writes the C driver the REAL `driver::generate_c_driver(n, None)` produces for
+//! gen_drivers <outdir>: writes the C driver the REAL `driver::generate_c_driver(n, None | Some(8))` produces for
 //! n = 0..=7 parameters and the io runtime (`driver::generate_io_runtime`) into <outdir>.
 fn main() {
     let out = std::env::args().nth(1).expect("usage: gen_drivers <outdir>");
@@ -7,6 +7,9 @@ fn main() {
     std::env::set_current_dir(&out).unwrap();
     for n in 0..=7usize {
         let p = driver::generate_c_driver(n, None);
+        println!("{}", std::fs::canonicalize(&p).unwrap().display());
+        // the same with an explicit heap size (the `--heap-size` path of the driver generator)
+        let p = driver::generate_c_driver(n, Some(8));
         println!("{}", std::fs::canonicalize(&p).unwrap().display());
     }
 }
